@@ -7,7 +7,8 @@ From Coq Require Import ZArith List Bool String.
 From Coq Require Import Floats.SpecFloat.
 From Coq Require Import Strings.Byte.
 From YVGen Require Import NumSrc.
-From YV Require Import Num NumText NumLex NumProofs NumTextProofs NumLexProofs NumSrcModel NumSrcProofs NumRound.
+From YV Require Import Num NumText NumLex NumProofs NumTextProofs NumLexProofs NumSrcModel NumSrcProofs NumRound
+  NumInterval NumShortest NumDigits.
 Import ListNotations.
 Open Scope list_scope.
 Open Scope Z_scope.
@@ -45,8 +46,7 @@ Proof. exact bits_roundtrip. Qed.
 Theorem C19_f64_of_bits_valid : forall b, f64_valid (f64_of_bits b) = true.
 Proof. exact f64_of_bits_valid. Qed.
 
-(* --- shape: -?[0-9]+(\.[0-9]+)? , no exponent (that integral values have no fraction part is only
-   checked empirically: it needs shortest-ness of the digit search, which is not proved) --- *)
+(* --- shape: -?[0-9]+(\.[0-9]+)? , no exponent --- *)
 Theorem C19_print_shape : forall s m e, num_shape (print_f64 (S754_finite s m e)) = true.
 Proof. exact print_shape. Qed.
 
@@ -73,6 +73,63 @@ Theorem C19_nearest_double_correct_partial : forall neg d e10 s m e, 0 < d -> -1
   s = neg /\ forall m' e', finite_ok m' e' ->
     closer_eq (d * 10 ^ Z.max e10 0) (10 ^ Z.max (- e10) 0) (Zpos m) e (Zpos m') e'.
 Proof. exact nearest_double_correct_partial. Qed.
+
+
+(* --- FULL statement for what a decimal text d * 10^e10 denotes, early exits included:
+   a nearest double / zero only when nothing is nearer / infinity only at or above MAX + ulp/2 --- *)
+Theorem C19_nearest_double_correct : forall neg d e10, 0 < d ->
+  match nearest_double neg d e10 with
+  | S754_finite s m e =>
+    s = neg /\ forall m' e', finite_ok m' e' ->
+      closer_eq (nd_num d e10) (nd_den e10) (Zpos m) e (Zpos m') e'
+  | S754_zero s =>
+    s = neg /\ forall m' e', finite_ok m' e' ->
+      closer_eq (nd_num d e10) (nd_den e10) 0 (-1074) (Zpos m') e'
+  | S754_infinity s => s = neg /\ (2 ^ 54 - 1) * 2 ^ 970 * nd_den e10 <= nd_num d e10
+  | S754_nan => False
+  end.
+Proof. exact nearest_double_correct. Qed.
+
+(* --- the rounding interval: num/dn rounds to x = m*2^e IF AND ONLY IF it lies between the two midpoints
+   around x (closed exactly when m is even: ties to even).  A = num*2^1074, U = one ulp, V = x, all scaled --- *)
+Theorem C19_round_ratio_interval : forall neg m e num dn, finite_ok m e -> 0 < num -> 0 < dn ->
+  in_rint_s m e (num * 2 ^ 1074) (2 ^ (e + 1074) * dn) (Zpos m * (2 ^ (e + 1074) * dn)) ->
+  round_ratio neg num dn = S754_finite neg m e.
+Proof. exact round_ratio_interval_s. Qed.
+Theorem C19_round_ratio_interval_inv : forall neg s m e num dn, 0 < num -> 0 < dn ->
+  round_ratio neg num dn = S754_finite s m e ->
+  s = neg /\ in_rint_s m e (num * 2 ^ 1074) (2 ^ (e + 1074) * dn) (Zpos m * (2 ^ (e + 1074) * dn)).
+Proof. exact round_ratio_interval_inv_s. Qed.
+Theorem C19_round_ratio_monotone : forall neg n1 d1 n2 d2 s1 m1 e1 s2 m2 e2,
+  0 < n1 -> 0 < d1 -> 0 < n2 -> 0 < d2 -> n1 * d2 <= n2 * d1 ->
+  round_ratio neg n1 d1 = S754_finite s1 m1 e1 -> round_ratio neg n2 d2 = S754_finite s2 m2 e2 ->
+  Zpos m1 * 2 ^ (e1 + 1074) <= Zpos m2 * 2 ^ (e2 + 1074).
+Proof. exact round_ratio_monotone. Qed.
+
+(* --- integral values print without a fraction part, and conversely (integral_fin m e: m*2^e is an integer) --- *)
+Theorem C19_integral_prints_without_fraction : forall s m e, finite_ok m e -> integral_fin m e ->
+  ~ In "."%byte (print_f64 (S754_finite s m e)).
+Proof. exact integral_prints_without_fraction. Qed.
+Theorem C19_print_without_fraction_integral : forall s m e, finite_ok m e ->
+  ~ In "."%byte (print_f64 (S754_finite s m e)) -> integral_fin m e.
+Proof. exact print_without_fraction_integral. Qed.
+Theorem C19_integral_finb_iff : forall m e, integral_finb m e = true <-> integral_fin m e.
+Proof. exact integral_finb_iff. Qed.
+
+(* --- the printed digits (fst (shortest_digits s m e), no trailing zeros) are the SHORTEST: no decimal d' * 10^j'
+   with fewer significant digits reads back as the same double; at most 17 digits; the re-check of print_f64
+   never fails, so its fallback (the exact expansion) is never taken --- *)
+Theorem C19_print_is_shortest : forall s m e d' j' n, finite_ok m e -> 1 <= n ->
+  0 < d' < 10 ^ n -> nearest_double s d' j' = S754_finite s m e ->
+  fst (shortest_digits s m e) < 10 ^ n.
+Proof. exact print_is_shortest_all. Qed.
+Theorem C19_print_at_most_17_digits : forall s m e, finite_ok m e ->
+  0 < fst (shortest_digits s m e) < 10 ^ 17.
+Proof. exact shortest_digits_at_most_17. Qed.
+Theorem C19_print_never_falls_back : forall s m e, finite_ok m e ->
+  exists d j, sd_search 17 (sd_make m e) 16 = Some (d, j) /\
+              shortest_digits s m e = strip_zeros 20 d j.
+Proof. exact shortest_digits_no_fallback. Qed.
 
 (* --- lexing, for EVERY digit string and continuation --- *)
 Theorem C19_lex_fraction : forall d1 d2 r,
@@ -133,6 +190,16 @@ Print Assumptions C19_round_ratio_nearest.
 Print Assumptions C19_round_ratio_zero_nearest.
 Print Assumptions C19_round_ratio_inf_threshold.
 Print Assumptions C19_nearest_double_correct_partial.
+Print Assumptions C19_nearest_double_correct.
+Print Assumptions C19_round_ratio_interval.
+Print Assumptions C19_round_ratio_interval_inv.
+Print Assumptions C19_round_ratio_monotone.
+Print Assumptions C19_integral_prints_without_fraction.
+Print Assumptions C19_print_without_fraction_integral.
+Print Assumptions C19_integral_finb_iff.
+Print Assumptions C19_print_is_shortest.
+Print Assumptions C19_print_at_most_17_digits.
+Print Assumptions C19_print_never_falls_back.
 Print Assumptions C19_lex_fraction.
 Print Assumptions C19_lex_range.
 Print Assumptions C19_lex_method.
